@@ -74,7 +74,9 @@ def closeTo (tol a b : Rat) : Bool :=
 /-- `tol`: relative tolerance for comparing an implementation's float with the exact value
     (0 for model traces: exact equality). -/
 def geometricOk (cfg : Cfg) (tol : Rat) (t : Track) : Ob → Bool
-  | .setTimer _ d => closeTo tol d (cfg.initInterval * producerRetryFactor ^ t.timersSinceReset)
+  | .setTimer _ d =>
+    -- delays GROW: the factor in the source is above 1
+    decide (1 < producerRetryFactor) && closeTo tol d (cfg.initInterval * producerRetryFactor ^ t.timersSinceReset)
   | _ => true
 
 def geometricStep (cfg : Cfg) (tol : Rat) (pre : Snap) (t : Track) (s : Step) : Bool :=
